@@ -14,9 +14,11 @@ import (
 	"fmt"
 	"io"
 	"os"
+	"os/signal"
 	"sort"
 	"strings"
 	"syscall"
+	"time"
 )
 
 type object struct {
@@ -84,6 +86,20 @@ func (fw *faultWriter) trigger() {
 	}
 	if fw.f.Signal == "TERM" {
 		syscall.Kill(os.Getpid(), syscall.SIGTERM)
+	}
+	// the other ways a process can die without an exit status of its own choosing (SIGPIPE is what a writer gets whose
+	// reader went away; a parent may single it out as "harmless")
+	others := map[string]syscall.Signal{"PIPE": syscall.SIGPIPE, "HUP": syscall.SIGHUP, "INT": syscall.SIGINT, "SEGV": syscall.SIGSEGV,
+		"ABRT": syscall.SIGABRT, "XFSZ": syscall.SIGXFSZ, "BUS": syscall.SIGBUS}
+	if sig, ok := others[fw.f.Signal]; ok {
+		if sig == syscall.SIGPIPE {
+			// the Go runtime swallows a SIGPIPE that does not come from a write: become a shell (same pid, default signal
+			// dispositions) that kills itself
+			syscall.Exec("/bin/sh", []string{"sh", "-c", "kill -PIPE $$"}, os.Environ())
+		}
+		signal.Reset(sig)
+		syscall.Kill(os.Getpid(), sig)
+		time.Sleep(2 * time.Second)
 	}
 	os.Exit(fw.f.Exit)
 }
